@@ -596,7 +596,12 @@ class Engine(
                     extra_columns = list(extra_columns)
                     self.handle_empty_columns(extra_columns)
                 columns_available = payload.columns_available
-                columns_projected = {tag: columns_available[tag] for tag in select.columns}
+                # Use a deterministic column order, so the operands of a UNION
+                # (which matches columns by position) always agree.
+                columns_projected = {
+                    tag: columns_available[tag]
+                    for tag in sorted(select.columns, key=lambda tag: tag.qualified_name)
+                }
                 executable = self.select_items(columns_projected.items(), payload.from_clause, *extra_columns)
                 if len(payload.where) == 1:
                     executable = executable.where(payload.where[0])
